@@ -157,16 +157,19 @@ Proof.
   assert (scan_fuel T = S (leaf_count r)) as Hfuel by (unfold scan_fuel; rewrite (bt_root _ _ _ _ _ _ Bt); reflexivity).
   pose proof (SS_filter ent_lt e_keep _ (si_sorted _ I0)) as Hsorted. fold (kept s0) in Hsorted.
   assert (forall e, In e (kept s0) -> In e (s_ents s0)) as Hkin by (intros e He; apply filter_In in He; tauto).
-  rewrite scan_indexes_ents. fold s0.
-  unfold iter_init. rewrite Hgp. cbn [bind].
+  pose proof (scan_indexes_ents o keys vals s incl) as Hsi. fold s0 in Hsi.
+  assert (iter_init T s incl withv =
+          new_iter (fst (of_gres (ge_rec s qn l r 0) None [])) (snd (of_gres (ge_rec s qn l r 0) None []) && negb incl) withv) as Hinit.
+  { unfold iter_init. rewrite Hgp. cbn [bind]. destruct (of_gres (ge_rec s qn l r 0) None []). reflexivity. }
   destruct (ge_rec s qn l r 0) as [p eq|].
   - (* a path to the first item that is not below s *)
-    destruct Hge as (B & A & Hps & HB & (xa & R & -> & Hxa & Heq)).
-    cbn [of_gres app fst snd].
+    destruct Hge as (B & A & Hps & HB & (xa & R & -> & Hxa & Heq)). fold qn in Hxa, Heq.
+    cbn [of_gres app fst snd] in Hinit.
     destruct (new_iter_spec r p B (xa :: R) (eq && negb incl) withv Hps Hids Hwf) as (it & Hni & Hiok & Hiw & Hrem).
+    rewrite Hni in Hinit.
     rewrite (psplit_items _ _ _ _ _ _ Hps) in Hit.
     apply Forall2_app_inv_r in Hit. destruct Hit as (K1 & K2 & HK1 & HK2 & EK).
-    inversion HK2 as [|x2 ? K2' ? [Hx2 Hl2] HK2' E1 E2]; subst. clear HK2.
+    revert Hiw. inversion HK2 as [|x2 ? K2' ? [Hx2 Hl2] HK2' E1 E2]; subst. clear HK2. intros Hiw.
     (* the entries left of the path are below s, the others are not *)
     assert (filter (fun e => in_range s incl (e_key e)) K1 = []) as EF1.
     { apply filter_all_false. clear - HK1 HB Hok Hkin EK.
@@ -175,7 +178,7 @@ Proof.
       constructor; [|apply IH; [exact HB'|intros; apply Hin; right; assumption]].
       rewrite (in_range_nibs s incl e (Hok e (Hin e (or_introl eq_refl)))). unfold ilt in Hlt. rewrite Hx in Hlt. rewrite Hlt. reflexivity. }
     rewrite EK in Hsorted. apply SS_app_inv in Hsorted. destruct Hsorted as (_ & Hs2 & _).
-    inversion Hs2 as [|? ? _ Hgt2]; subst. rewrite Forall_forall in Hgt2.
+    apply StronglySorted_inv in Hs2. destruct Hs2 as [_ Hgt2]. rewrite Forall_forall in Hgt2.
     assert (forall e, In e (x2 :: K2') -> In e (s_ents s0)) as Hin2 by (intros e He; apply Hkin; rewrite EK; apply in_or_app; right; exact He).
     assert (filter (fun e => in_range s incl (e_key e)) K2' = K2') as EF2.
     { apply filter_all_true. rewrite Forall_forall. intros e He.
@@ -187,8 +190,8 @@ Proof.
       - apply lex_cmp_eq in Ec. rewrite (proj2 Heq Ec). destruct incl; reflexivity.
       - assert (eq = false) as -> by (destruct eq; [|reflexivity]; rewrite (proj1 Heq eq_refl), lex_cmp_refl in Ec; discriminate).
         reflexivity. }
-    rewrite EK, filter_app, EF1, EF3. cbn [app].
-    set (Ksel := if eq && negb incl then K2' else x2 :: K2').
+    rewrite EK, filter_app, EF1, EF3 in Hsi. cbn [app] in Hsi.
+    set (Ksel := if eq && negb incl then K2' else x2 :: K2') in *.
     assert (Forall2 item_of Ksel (iter_rem it)) as Hsel.
     { rewrite Hrem. unfold Ksel. destruct (eq && negb incl); [exact HK2'|constructor; [split; assumption|exact HK2']]. }
     assert (forall x, In x (iter_rem it) -> In x (items r [] 0)) as Hsub.
@@ -196,16 +199,48 @@ Proof.
       rewrite Hrem in Hx. destruct (eq && negb incl); [right; exact Hx|exact Hx]. }
     destruct (outs_exist o keys vals T r lidx withv Bt Ksel (iter_rem it) Hsel Hsub) as (outs & Ho1 & Ho2).
     { intros e He. apply Hin2. unfold Ksel in He. destruct (eq && negb incl); [right; exact He|exact He]. }
-    apply (Hfin it outs); try assumption.
-    rewrite Hfuel, <- (Forall2_length Ho1), <- (items_length r [] 0), (psplit_items _ _ _ _ _ _ Hps), app_length, Hrem.
+    apply (Hfin it outs); try assumption; [|rewrite Hsi; exact Ho2].
+    rewrite Hfuel, <- (Forall2_length_eq _ _ _ Ho1), <- (items_length r [] 0), (psplit_items _ _ _ _ _ _ Hps), app_length, Hrem.
     destruct (eq && negb incl); cbn [tl length]; lia.
   - (* every item is below s *)
-    cbn [of_gres fb fst snd andb]. unfold ge_ok in Hge.
+    cbn [of_gres fb fst snd andb] in Hinit. unfold ge_ok in Hge.
     assert (filter (fun e => in_range s incl (e_key e)) (kept s0) = []) as EF.
     { apply filter_all_false. clear - Hit Hge Hok Hkin.
       induction Hit as [|e x K I [Hx _] _ IH]; [constructor|]. inversion Hge as [|? ? Hlt Hge']; subst.
       constructor; [|apply IH; [exact Hge'|intros; apply Hkin; right; assumption]].
       rewrite (in_range_nibs s incl e (Hok e (Hkin e (or_introl eq_refl)))). unfold ilt in Hlt. rewrite Hx in Hlt. rewrite Hlt. reflexivity. }
-    rewrite EF. cbn [map].
-    apply (Hfin (empty_iter withv) []); [reflexivity|repeat split; constructor|reflexivity|constructor|rewrite Hfuel; cbn; lia|constructor].
+    rewrite EF in Hsi. cbn [map] in Hsi.
+    apply (Hfin (empty_iter withv) []); [rewrite Hinit; reflexivity|repeat split; constructor|reflexivity|constructor|rewrite Hfuel; cbn; lia|rewrite Hsi; constructor].
+Qed.
+
+(* ---------- "in strictly ascending byte order, each once" ---------- *)
+Lemma seq_SS : forall n a, StronglySorted lt (List.seq a n).
+Proof.
+  induction n as [|n IH]; intros a; [constructor|]. cbn [List.seq]. constructor; [apply IH|].
+  rewrite Forall_forall. intros x Hx. apply in_seq in Hx. lia.
+Qed.
+
+Lemma SS_nth {A} (R : A -> A -> Prop) d : forall l i j,
+  StronglySorted R l -> i < j -> j < length l -> R (nth i l d) (nth j l d).
+Proof.
+  induction l as [|x l IH]; intros i j Hs Hij Hj; [cbn in Hj; lia|].
+  inversion Hs as [|? ? Hs' Hf]; subst. destruct j as [|j]; [lia|]. cbn [length] in Hj.
+  destruct i as [|i].
+  - cbn [nth]. rewrite Forall_forall in Hf. apply Hf. apply nth_In. lia.
+  - cbn [nth]. apply IH; [exact Hs'|lia|lia].
+Qed.
+
+Theorem scan_keys_ascending o keys vals T s incl :
+  build o keys vals = Ok T ->
+  StronglySorted key_lt (map (fun i => nth i keys []) (scan_indexes o keys vals s incl)).
+Proof.
+  intros Hb.
+  assert (StronglySorted key_lt keys) as Hk.
+  { destruct (build_ok _ _ _ _ Hb) as [[-> _]|(r & lidx & Bt)]; [constructor|].
+    apply AdjSorted_strong. exact (bt_sorted _ _ _ _ _ _ Bt). }
+  unfold scan_indexes.
+  apply (SS_map (fun i j => i < j /\ j < length keys)).
+  - intros i j [Hij Hj]. apply SS_nth; assumption.
+  - eapply SS_impl; [|apply SS_filter; apply seq_SS].
+    intros i j _ Hj Hij. split; [exact Hij|]. apply filter_In in Hj. destruct Hj as [Hj _]. apply in_seq in Hj. lia.
 Qed.
